@@ -428,7 +428,15 @@ def gen_picks(rng, n, length):
 def generate(rng, tier, idx):
     if rng.random() < 0.4:
         nops = rng.choice([1, 2, 2, 3, 3, 4, 5, 6])
-        ops = [gen_op(rng, pool=(40 if tier == 'quick' else 400)) for _ in range(nops)]
+        pool = 40 if tier == 'quick' else 400
+        ops = [gen_op(rng, pool=pool) for _ in range(nops)]
+        if rng.random() < 0.35:
+            # the same query text again over another table / column order / front-end: what a cache keyed by
+            # (part of) the query text would confuse
+            kind = rng.choice(KIND_NAMES if rng.random() < 0.5 else ['header_attr', 'except_header', 'join_header', 'agg_float', 'agg_plain', 'like', 'join', 'init_code'])
+            for _ in range(rng.choice([2, 2, 3])):
+                ops.insert(rng.randrange(len(ops) + 1), gen_op(rng, kind, pool=pool))
+            ops = ops[:7]
         return {'part': 'A', 'ops': ops}
     n = 2 if rng.random() < (0.85 if tier == 'quick' else 0.7) else 3
     kinds = rng.sample(THREAD_KINDS, n)
